@@ -57,14 +57,103 @@ var ewKinds = []string{
 type ewPkg struct {
 	files []*ast.File
 	funcs map[string][]*ast.FuncDecl
+	roles ewRoles
+	keepGo bool // do not turn `go helper()` into go of a closure (while the loops are being identified)
 	scope ast.Node // the inlined body under analysis: locals (and bound helper parameters) are looked up here first
 }
 
 // functions the patterns are anchored in: never inlined
-var ewAnchor = map[string]bool{
-	"sendBatch": true, "writingLoop": true, "batchingLoop": true, "writeFunction": true,
-	"internalEventToKafkaEvent": true, "kafkaEventToKafkaMessage": true,
-	"extractAndConvertEnvID": true, "newMetric": true,
+// (the field writeFunction; the two loops and the two conversion functions are added once they
+// have been found — by what they do, not by their names)
+var ewAnchor = map[string]bool{"writeFunction": true}
+
+// the unexported functions the patterns are about, found by role
+type ewRoles struct {
+	writingLoop, batchingLoop *ast.FuncDecl // started by NewWriterWithTopic with `go`
+	convert, message          *ast.FuncDecl // the type switch over the event types; the one that marshals
+}
+
+func (p *ewPkg) findRoles(nw *ast.FuncDecl) ewRoles {
+	var r ewRoles
+	// every `go x.f()` of NewWriterWithTopic (helpers inlined) whose f is a function of the package
+	p.keepGo = true
+	nwBody := p.body(nw)
+	p.keepGo = false
+	ast.Inspect(nwBody, func(x ast.Node) bool {
+		g, ok := x.(*ast.GoStmt)
+		if !ok {
+			return true
+		}
+		fds := p.funcs[ewCallName(g.Call)]
+		if len(fds) != 1 {
+			return true
+		}
+		fd := fds[0]
+		isBatch, isWrite := false, false
+		ast.Inspect(p.body(fd), func(y ast.Node) bool {
+			switch v := y.(type) {
+			case *ast.RangeStmt:
+				if ewMentions(v.X, "toBatchMessagesChan") {
+					isBatch = true
+				}
+			case *ast.SelectStmt:
+				if ewMentions(v, "batchingLoopDoneCh") {
+					isWrite = true
+				}
+			}
+			return true
+		})
+		switch {
+		case isBatch && !isWrite && r.batchingLoop == nil:
+			r.batchingLoop = fd
+		case isWrite && !isBatch && r.writingLoop == nil:
+			r.writingLoop = fd
+		default:
+			die("eventwriter: NewWriterWithTopic starts a goroutine (%s) that is neither the batching nor the writing loop, or starts one twice", fd.Name.Name)
+		}
+		return true
+	})
+	if r.writingLoop == nil || r.batchingLoop == nil {
+		die("eventwriter: NewWriterWithTopic does not start exactly one writingLoop and one batchingLoop")
+	}
+	// the conversion functions
+	for _, fds := range p.funcs {
+		for _, fd := range fds {
+			hasSwitch, marshals := false, false
+			ast.Inspect(fd.Body, func(y ast.Node) bool {
+				switch v := y.(type) {
+				case *ast.TypeSwitchStmt:
+					if ewMentions(v, "Ev_TaskEvent") {
+						hasSwitch = true
+					}
+				case *ast.CallExpr:
+					if ewCallName(v) == "Marshal" {
+						marshals = true
+					}
+				}
+				return true
+			})
+			if hasSwitch {
+				if r.convert != nil {
+					die("eventwriter: two functions switch over the event types")
+				}
+				r.convert = fd
+			}
+			if marshals {
+				if r.message != nil {
+					die("eventwriter: two functions marshal the event")
+				}
+				r.message = fd
+			}
+		}
+	}
+	if r.convert == nil || r.message == nil {
+		die("eventwriter: the conversion functions (type switch over the event types; Marshal) not found")
+	}
+	for _, fd := range []*ast.FuncDecl{r.writingLoop, r.batchingLoop, r.convert, r.message} {
+		ewAnchor[fd.Name.Name] = true
+	}
+	return r
 }
 
 func ewLoadPkg(dir string) *ewPkg {
@@ -234,6 +323,9 @@ func (p *ewPkg) expandLitCall(c *ast.CallExpr, depth int) *ast.CallExpr {
 func (p *ewPkg) expandAsyncCall(c *ast.CallExpr, depth int) *ast.CallExpr {
 	if lc := p.expandLitCall(c, depth); lc != nil {
 		return lc
+	}
+	if p.keepGo {
+		return c
 	}
 	if body := p.inlineCall(c, depth); body != nil {
 		return &ast.CallExpr{Fun: &ast.FuncLit{Type: &ast.FuncType{Params: &ast.FieldList{}}, Body: &ast.BlockStmt{Lbrace: c.Pos(), List: body, Rbrace: c.End()}}, Lparen: c.Lparen, Rparen: c.Rparen}
@@ -525,6 +617,8 @@ func eventWriter() string {
 	if nw == nil {
 		die("eventwriter: NewWriterWithTopic not found")
 	}
+	roles := p.findRoles(nw)
+	p.roles = roles
 	nwBody := p.body(nw)
 	p.scope = nwBody
 	chanCap, doneCap := int64(-1), int64(-1)
@@ -583,15 +677,12 @@ func eventWriter() string {
 	if chanCap < 0 || doneCap < 0 {
 		die("eventwriter: make(chan ...) of toBatchMessagesChan / batchingLoopDoneCh not found in NewWriterWithTopic")
 	}
-	if len(ewFindGo(nwBody, "writingLoop")) != 1 || len(ewFindGo(nwBody, "batchingLoop")) != 1 {
+	if len(ewFindGo(nwBody, roles.writingLoop.Name.Name)) != 1 || len(ewFindGo(nwBody, roles.batchingLoop.Name.Name)) != 1 {
 		die("eventwriter: NewWriterWithTopic does not start exactly one writingLoop and one batchingLoop")
 	}
 
 	// ---- writingLoop: for { select { case <-done: ...; default: sendBatch(PopMultiple(k)) } }
-	wl := p.fn("KafkaWriter", "writingLoop")
-	if wl == nil {
-		die("eventwriter: writingLoop not found")
-	}
+	wl := roles.writingLoop
 	wlBody := p.body(wl)
 	p.scope = wlBody
 	var sel *ast.SelectStmt
@@ -619,8 +710,8 @@ func eventWriter() string {
 	defBlock := &ast.BlockStmt{List: defClause.Body}
 	doneBlock := &ast.BlockStmt{List: doneClause.Body}
 	pops := p.findCalls(defBlock, "PopMultiple")
-	if len(pops) != 1 || len(p.findCalls(defBlock, "sendBatch")) != 1 {
-		die("eventwriter: default branch is not one sendBatch(PopMultiple(k))")
+	if len(pops) != 1 || len(p.findCalls(defBlock, "writeFunction")) != 1 {
+		die("eventwriter: default branch is not one PopMultiple(k) handed once to the write function")
 	}
 	batchMax, ok := p.constInt(pops[0].Args[0], 0)
 	if !ok {
@@ -646,7 +737,7 @@ func eventWriter() string {
 			return true
 		}
 		pp := p.findCalls(fs.Body, "PopMultiple")
-		if len(pp) != 1 || len(p.findCalls(fs.Body, "sendBatch")) != 1 {
+		if len(pp) != 1 || len(p.findCalls(fs.Body, "writeFunction")) != 1 {
 			return true
 		}
 		if !p.ewWhileNonEmpty(fs) {
@@ -659,21 +750,12 @@ func eventWriter() string {
 		drain, drainMax = true, k
 		return true
 	})
-	if !drain && (len(p.findCalls(doneBlock, "PopMultiple")) > 0 || len(p.findCalls(doneBlock, "sendBatch")) > 0) {
+	if !drain && (len(p.findCalls(doneBlock, "PopMultiple")) > 0 || len(p.findCalls(doneBlock, "writeFunction")) > 0) {
 		die("eventwriter: done branch sends batches in a shape the model does not know")
 	}
 
-	// ---- sendBatch: the write function is called once
-	sb := p.fn("KafkaWriter", "sendBatch")
-	if sb == nil || len(p.findCalls(p.body(sb), "writeFunction")) != 1 {
-		die("eventwriter: sendBatch does not call writeFunction exactly once")
-	}
-
 	// ---- batchingLoop skeleton, in order
-	bl := p.fn("KafkaWriter", "batchingLoop")
-	if bl == nil {
-		die("eventwriter: batchingLoop not found")
-	}
+	bl := roles.batchingLoop
 	stage := 0
 	for _, s := range ewFlatten(p.body(bl).List) {
 		switch v := s.(type) {
@@ -735,10 +817,7 @@ func eventWriter() string {
 	}
 
 	// ---- key selection: type switch of internalEventToKafkaEvent
-	ie := p.fn("", "internalEventToKafkaEvent")
-	if ie == nil {
-		die("eventwriter: internalEventToKafkaEvent not found")
-	}
+	ie := roles.convert
 	keyName := "key"
 	if ie.Type.Results != nil {
 		var names []string
@@ -766,9 +845,6 @@ func eventWriter() string {
 	for i, k := range ewKinds {
 		kindIdx[k] = i
 	}
-	// extractAndConvertEnvID must read the environment id
-	ex := p.fn("", "extractAndConvertEnvID")
-	exReadsEnv := ex != nil && (len(p.findCalls(p.body(ex), "GetEnvironmentId")) == 1 || p.mentionsDeep(ex.Body, "EnvironmentId", 0))
 	src := map[int]int{}
 	for _, c := range ts.Body.List {
 		cc := c.(*ast.CaseClause)
@@ -820,12 +896,6 @@ func eventWriter() string {
 				}
 				taskID := p.mentionsVia(rhs, body, "Taskid", 0) || p.mentionsVia(rhs, body, "GetTaskid", 0)
 				envID := p.mentionsVia(rhs, body, "GetEnvironmentId", 0) || p.mentionsVia(rhs, body, "EnvironmentId", 0)
-				if call, ok := rhs.(*ast.CallExpr); ok && ewCallName(call) == "extractAndConvertEnvID" {
-					if !exReadsEnv {
-						die("eventwriter: extractAndConvertEnvID does not read GetEnvironmentId()")
-					}
-					envID = true
-				}
 				switch {
 				case taskID && !envID:
 					ks = 1
@@ -1276,7 +1346,7 @@ func (p *ewPkg) ewPublishShape() ewPub {
 		before := map[string]bool{}
 		sendAt := order[s]
 		p.callClosure(root, func(c *ast.CallExpr) bool { return order[c] < sendAt }, before, 0)
-		if !fromSrc["kafkaEventToKafkaMessage"] || !before["internalEventToKafkaEvent"] {
+		if !fromSrc[p.roles.message.Name.Name] || !before[p.roles.convert.Name.Name] {
 			pub.convertFirst = false
 		}
 	}
